@@ -328,6 +328,9 @@ class DocstringParser(AbstractDocstringParser):
                 value_type_ = self._griffe_annotation_to_api_type(value, docstring)
                 if value_type_ is not None:
                     types.append(value_type_)
+            if not types:
+                # No alternative carries type information ("1 or 2"): like any other text without type information
+                return None
             return sds_types.UnionType(types=types)
         elif isinstance(annotation, ExprTuple):
             elements = []
@@ -367,6 +370,9 @@ class DocstringParser(AbstractDocstringParser):
             left_type = self._griffe_annotation_to_api_type(left_bin, docstring)
             if left_type is not None:
                 types.append(left_type)
+            if not types:
+                # No member carries type information ("1 | 2", "1 + 2"): like any other text without type information
+                return None
             return sds_types.UnionType(types=types)
         else:  # pragma: no cover
             msg = f"Can't parse unexpected type from docstring: {annotation}. Added unknown type instead."
